@@ -3,6 +3,8 @@ use std::cell::{Cell, RefCell};
 use std::fmt;
 
 thread_local! {
+    /// a payload with this value panics in its destructor (exception-safety probes)
+    static BOMB: Cell<Option<u8>> = const { Cell::new(None) };
     static ARMED: Cell<bool> = const { Cell::new(false) };
     static LEDGER: RefCell<Vec<u8>> = const { RefCell::new(Vec::new()) };
 }
@@ -59,8 +61,17 @@ impl Clone for Payload {
     }
 }
 
+/// Arm (Some(v)) or disarm (None) the destructor bomb for payload value `v` on this thread.
+pub fn set_bomb(v: Option<u8>) {
+    BOMB.with(|b| b.set(v));
+}
+
 impl Drop for Payload {
     fn drop(&mut self) {
+        if BOMB.try_with(|b| b.get()).ok().flatten() == Some(self.0) && !std::thread::panicking() {
+            BOMB.with(|b| b.set(None));
+            panic!("payload destructor panics");
+        }
         let _ = ARMED.try_with(|a| {
             if a.get() {
                 let _ = LEDGER.try_with(|l| l.borrow_mut().push(self.0));
